@@ -12,6 +12,8 @@ import (
 	"os"
 	"os/exec"
 	"path/filepath"
+	"regexp"
+	"sort"
 	"strings"
 
 	"github.com/sirupsen/logrus"
@@ -227,10 +229,15 @@ func main() {
 		var rf struct {
 			Case *TaskCase `json:"case"`
 			Cli  *cliCase  `json:"cli"`
+			Cap  *capCase  `json:"cap"`
 		}
 		common.ReadReplay(&rf)
 		bad := false
-		if rf.Cli != nil {
+		if rf.Cap != nil {
+			d := runCapture(*rf.Cap)
+			fmt.Printf("capture case %+v: %s\n", *rf.Cap, d)
+			bad = d != ""
+		} else if rf.Cli != nil {
 			d := runCli(*rf.Cli)
 			fmt.Printf("cli case %v: %s\n", *rf.Cli, d)
 			bad = d != ""
@@ -347,6 +354,8 @@ func main() {
 				}
 			}
 		}
+	case "capture":
+		captureUnit(res)
 	case "cli3":
 		cliUnit(res, 3, []int{1})
 	case "cli4":
@@ -361,6 +370,144 @@ done:
 	}
 	res.Configs = res.Evaluations
 	res.Write()
+}
+
+// ---- C11: output capture and hand-over (in-process) ----
+
+type capCase struct {
+	Name    string `json:"name"`
+	Payload string `json:"payload"` // index into payloads
+	Shape   string `json:"shape"`   // one, two, two-x2, allowed-failure, chain
+	Export  string `json:"export"`
+}
+
+var nonNameRe = regexp.MustCompile("[^a-zA-Z0-9_]")
+
+func payloads() map[string]string {
+	big := strings.Repeat("0123456789abcdef", 4096) // 64 KiB
+	return map[string]string{
+		"empty": "", "x": "x", "line": "x\n", "two-lines": "l1\nl2\n", "crlf": "a\r\nb\r\n", "utf8": "h\u00e9llo \u4e16\u754c\n",
+		"64k": big, "no-final-newline": "tail without newline", "spaces": "  lead and trail  \n", "quotes": "it's \"quoted\" $HOME `x`\n",
+	}
+}
+
+func runCapture(c capCase) string {
+	pl := payloads()[c.Payload]
+	var buf bytes.Buffer
+	r, err := runner.NewTaskRunner()
+	if err != nil {
+		return "infra: " + err.Error()
+	}
+	r.Stdout, r.Stderr, r.OutputFormat = &buf, io.Discard, output.FormatRaw
+	t := task.NewTask()
+	t.Name = c.Name
+	t.ExportAs = c.Export
+	t = t.WithEnv("PAYLOAD", pl)
+	emit := "printf '%s' \"$PAYLOAD\"; printf 'ERR' >&2"
+	want := ""
+	switch c.Shape {
+	case "one":
+		t.Commands = []string{emit}
+		want = pl
+	case "two":
+		t.Commands = []string{emit, "printf '%s' second"}
+		want = pl + "second"
+	case "two-x2":
+		t.Commands = []string{emit, "printf '%s' \"$V\""}
+		t.Variations = []map[string]string{{"V": "v1"}, {"V": "v2"}}
+		want = pl + "v1" + pl + "v2"
+	case "allowed-failure":
+		t.Commands = []string{emit, "printf '%s' mid; exit 3", "printf '%s' last"}
+		t.AllowFailure = true
+		want = pl + "mid" + "last"
+	case "chain":
+		// command 2 prints the previous command's output through the .Output template variable
+		t.Commands = []string{"printf '%s' 'first out'", "printf '%s' '<{{.Output}}>'", "printf '%s' '[{{.Output}}]'"}
+		want = "first out" + "<first out>" + "[<first out>]"
+	}
+	if err := r.Run(t); err != nil {
+		return "producer failed: " + err.Error()
+	}
+	if got := t.Output(); got != want {
+		return fmt.Sprintf("Task.Output() = %q, the commands wrote %q", trunc(got), trunc(want))
+	}
+	// a consumer on the same runner reads the derived (or exportAs) variable
+	varName := c.Export
+	if varName == "" {
+		varName = nonNameRe.ReplaceAllString(strings.ToUpper(c.Name)+"_OUTPUT", "_")
+	}
+	cons := task.FromCommands("printf '%s' \"$" + varName + "\"")
+	cons.Name = "consumer"
+	if err := r.Run(cons); err != nil {
+		return "consumer failed: " + err.Error()
+	}
+	if got := cons.Output(); got != want {
+		return fmt.Sprintf("consumer read $%s = %q, producer wrote %q", varName, trunc(got), trunc(want))
+	}
+	return ""
+}
+
+func trunc(s string) string {
+	if len(s) > 80 {
+		return s[:40] + "..." + s[len(s)-30:] + fmt.Sprintf(" (%d bytes)", len(s))
+	}
+	return s
+}
+
+func captureUnit(res *common.Result) {
+	var names []string
+	for ch := 32; ch < 127; ch++ {
+		names = append(names, "a"+string(rune(ch))+"b")
+	}
+	names = append(names, "build:all", "my-task.v2", "UPPER lower", "x__y", "t", "a.b.c-d:e/f", "caf\u00e9", "tab\there")
+	var idx int64
+	distinct := map[string]bool{}
+	do := func(c capCase) bool {
+		idx++
+		if !common.Mine(idx) {
+			return false
+		}
+		res.Evaluations++
+		distinct[c.Payload+"/"+c.Shape+"/"+c.Export] = true
+		if res.Evaluations%53 == 1 {
+			res.AddSample(c)
+		}
+		d := runCapture(c)
+		if strings.HasPrefix(d, "infra:") {
+			fmt.Fprintln(os.Stderr, d)
+			os.Exit(2)
+		}
+		if d != "" {
+			return res.AddViolation(common.Violation{Property: "C11", Key: fmt.Sprintf("C11:capture|%q|%s|%s|%s", c.Name, c.Payload, c.Shape, c.Export), Desc: fmt.Sprintf("%+v: %s", c, d), Config: c},
+				map[string]interface{}{"harness": "taskrun", "mode": "plain", "property": "C11", "cap": c})
+		}
+		return false
+	}
+	var pls []string
+	for k := range payloads() {
+		pls = append(pls, k)
+	}
+	sort.Strings(pls)
+	// every name with the simple payload and shape; every payload x shape x exportAs with three names
+	for _, n := range names {
+		for _, ex := range []string{"", "MYVAR"} {
+			if do(capCase{Name: n, Payload: "two-lines", Shape: "two", Export: ex}) {
+				return
+			}
+		}
+	}
+	for _, n := range []string{"plain", "a.b", "build:all"} {
+		for _, p := range pls {
+			for _, sh := range []string{"one", "two", "two-x2", "allowed-failure", "chain"} {
+				for _, ex := range []string{"", "MYVAR"} {
+					if do(capCase{Name: n, Payload: p, Shape: sh, Export: ex}) {
+						return
+					}
+				}
+			}
+		}
+	}
+	res.Nontrivial = int64(len(distinct))
 }
 
 // ---- process level (C07) ----
